@@ -63,7 +63,7 @@ def configs(tier):
                                     "reconnect_silent", "one_way",
                                     "bulk_reconnect", "pause_reconnect",
                                     "many_reconnects",
-                                    "loss_at_selection")]
+                                    "loss_at_selection", "stop_bulk")]
 
 
 def _loss_at_selection(seed, tape, opts, interval):
@@ -248,6 +248,8 @@ def run_one(seed, tape, opts):
         return _pause_reconnect(seed, tape, w, interval, first_conn, eL, t_conn)
     if regime == "bulk_reconnect":
         return _bulk_reconnect(seed, tape, w, interval, first_conn, eL, t_conn)
+    if regime == "stop_bulk":
+        return _stop_bulk(seed, tape, w, interval, first_conn, eL, t_conn)
     if regime == "one_way":
         return _one_way(seed, tape, w, interval, first_conn, eL, t_conn)
     if regime == "reconnect_silent":
@@ -544,6 +546,84 @@ def _pause_reconnect(seed, tape, w, interval, first_conn, eL, t_conn):
                        "resume_when": when,
                        "dropped_at": None if dropped[0] is None else
                        round(dropped[0] - t2, 3)}}
+
+
+def _stop_bulk(seed, tape, w, interval, first_conn, eL, t_conn):
+    """Dilation is stopped while the Leader's connection still has a large
+    backlog to deliver over a slow path: the graceful close takes several
+    ping intervals. From stop() on the monitor is off: no ping is issued, no
+    timer is pending, the closing connection is not aborted by it."""
+    sim = w.sim
+    L, F = w.leader, w.follower
+    R = sim.reactor
+    viol = []
+    nrec = 6 + tape.choose(8, "nrec")
+    recsize = 60000
+    backlog = nrec * recsize
+    spread = tape.pick((2.5, 4.0, 6.0), "spread")
+    rate = backlog / (spread * interval)
+    sim.net.window = 16384
+    sim.net.high_water = 65536
+    for e in eL.link.ends:
+        e.rate = rate
+        e.rate_burst = 16384
+    F.listen("data")
+    rec = L.connect("data")
+    sim.run(4000, until=lambda: rec[1] != "pending", max_time=interval / 4)
+    if rec[1] != "ok":
+        raise HarnessError("setup: subchannel not opened: %r" % (rec[1],))
+    p = rec[2]
+    for i in range(nrec):
+        p.transport.write(bytes([65 + i % 26]) * recsize)
+    sim.run(4000, max_time=interval * tape.pick((0.05, 0.4, 0.9), "stop_at"))
+    pings_after = []
+    real_send = L.m.send_ping
+
+    def send_ping(ping_id, on_pong=None):
+        pings_after.append(round(sim.now() - t_stop[0], 3))
+        return real_send(ping_id, on_pong)
+    t_stop = [sim.now()]
+    stopped = []
+    L.m.when_stopped().addCallback(lambda _: stopped.append(sim.now()))
+    L.m.send_ping = send_ping
+    sim.ev("stop")
+    L.m.stop()
+    aborted = [None]
+    timer_seen = [None]
+
+    def watch():
+        if stopped:
+            return
+        if timer_seen[0] is None and _timer_pending(L.m):
+            timer_seen[0] = sim.now() - t_stop[0]
+        if aborted[0] is None and not eL.link.up:
+            aborted[0] = sim.now() - t_stop[0]
+    sim.after_step = watch
+    sim.run(60000, until=lambda: bool(stopped), max_time=(spread + 4) *
+            interval)
+    took = (stopped[0] - t_stop[0]) if stopped else None
+    if timer_seen[0] is not None:
+        viol.append({"key": "C16.timer_after_stop", "clause": "monitoring "
+                     "stops when dilation is stopped", "detail": "interval "
+                     "%.1f: %.2f s after stop() a ping timer is pending (the "
+                     "graceful close of a %d kB backlog at %d kB/s %s)" %
+                     (interval, timer_seen[0], backlog // 1024, rate / 1024,
+                      "took %.1f s" % took if took is not None else
+                      "had not finished")})
+    elif pings_after:
+        viol.append({"key": "C16.ping_after_stop", "clause": "monitoring "
+                     "stops when dilation is stopped", "detail": "interval "
+                     "%.1f: pings issued %r s after stop()" %
+                     (interval, pings_after[:4])})
+    w.finish()
+    return {"violation": viol[0] if viol else None,
+            "nontrivial": took is None or took > interval,
+            "digest": sim.hexdigest(), "trace": sim.trace,
+            "stats": {"steps": sim.steps, "sim_s": sim.now() - 1000.0,
+                      "notes": sim.notes},
+            "sample": {"seed": seed, "regime": "stop_bulk",
+                       "interval": interval, "backlog": backlog,
+                       "rate": round(rate), "close_took": took}}
 
 
 def _bulk_reconnect(seed, tape, w, interval, first_conn, eL, t_conn):
